@@ -72,6 +72,29 @@ theorem c03_tally_rule (p : EntParams) (now : Nat) (po : PO) (hv : p.minAccepts 
   have e3 : ∀ (a : Nat), ((a : Int) ≥ (p.minAccepts : Int)) ↔ a ≥ p.minAccepts := fun a => by omega
   simp only [e1, e2, e3]
 
+/-- **An order is accepted only on the accepts of at least `MinAccepts` pairwise distinct addresses** — however often an
+address is listed in the signer parameter, whoever else decided, and whatever happened to the signer list since: the tally
+counts the accept decisions recorded on the order, and in every state of every run those come from pairwise distinct
+addresses (one decision per address, each made by an address that was an authorised signer when it decided:
+`c03_decision_requires_current_signer`). -/
+theorem c03_accept_needs_min_accepts_distinct_addresses (g : GenCfg) (s : State) (h : FineReach g EntQ s) (id : Nat) (po : PO)
+    (hf : find? s.ent.orders id = some po) (now : Nat) (hv : s.ent.params.minAccepts ≤ s.ent.params.signers.length)
+    (hsmall : s.ent.params.minAccepts < two63) (ht : po.raiseTime ≤ now)
+    (hacc : EntState.tallyDecision s.ent.params now po = some stAccepted) :
+    s.ent.params.minAccepts ≤ (po.decisions.filter (·.decision = stAccepted)).length ∧
+    ((po.decisions.filter (·.decision = stAccepted)).map (fun d => d.signer.decode)).Nodup := by
+  constructor
+  · rw [c03_tally_rule s.ent.params now po hv hsmall ht] at hacc
+    unfold tallyRule at hacc
+    split at hacc
+    · simp [stRejected, stAccepted] at hacc
+    · split at hacc
+      · simp [stRejected, stAccepted] at hacc
+      · split at hacc
+        · rename_i hge; exact hge
+        · cases hacc
+  · exact List.Nodup.sublist (List.Sublist.map _ List.filter_sublist) (c03_one_decision_per_signer g s h id po hf).1
+
 /-- At each block every raised order gets exactly the decision of the rule (stale/rejected →
 rejected, quorum → accepted, otherwise it stays raised); the tally changes no other order. -/
 theorem c03_tally_applies_rule_to_every_raised_order (g : GenCfg) (s : State) (h : FineReach g EntQ s)
